@@ -117,7 +117,9 @@ def _check_reports(bt, b, spec):
         nega += np.where(v < 0, -v, 0.0)
     exp_t = np.minimum(posi, nega) / V
     got_t = np.asarray(to, dtype=float)
-    if secs and not np.allclose(got_t[ok], exp_t[ok], rtol=1e-10, atol=1e-12):
+    if len(got_t) != n:
+        raise Violation("turnover has %d rows, the run has %d dates" % (len(got_t), n), signature="c18:turnover-shape")
+    if not np.allclose(got_t[ok], exp_t[ok], rtol=1e-10, atol=1e-12):
         i = int(np.argmax(ok & ~np.isclose(got_t, exp_t, rtol=1e-10, atol=1e-12)))
         raise Violation("turnover row %d is %r, expected min(buys %r, sells %r) / value %r" % (i, got_t[i], posi[i], nega[i], V[i]), signature="c18:turnover")
     # Result
